@@ -141,7 +141,47 @@ def line_calls(text, version, vlevel):
                 pass
         return True
     calls.append(('reads on Line(%r, version=%r, vlevel=%d)' % (text, version, vlevel), more))
+
+    def connect():
+        G = g.Gfa(version=version, vlevel=vlevel)
+        G.add_line(text)
+        str(G)
+        try:
+            G.validate()
+        except g.Error:
+            pass
+        for n in list(G.names)[:3]:
+            try:
+                G.rm(n)
+            except g.Error:
+                pass
+        return str(G)
+    calls.append(('Gfa(version=%r, vlevel=%d).add_line(%r)' % (version, vlevel, text), connect))
     return calls
+
+
+def structured_lines(rng):
+    """record-shaped lines whose list fields disagree in length or refer to themselves"""
+    out = []
+    segs = ['a+', 'b-', 'c+', 'd+']
+    for n in (1, 2, 3, 4):
+        for k in (0, 1, 2, 3, 4, 5):
+            for ov in ('*', '3M', '10M'):
+                ovs = ','.join([ov] * k) if k else ''
+                out.append('P\tp\t%s\t%s' % (','.join(segs[:n]), ovs))
+                out.append('P\tp\t%s\t%s' % (','.join(segs[:n]), ','.join((['*'] * max(k - 1, 0)) + [ov]) if k else '*'))
+    for items in ('a+', 'a+ b-', 'a+ a+', 'o+', 'a+ o-', 'e1+ e1-', ''):
+        out.append('O\to\t%s' % items)
+    for items in ('a', 'a a', 'u', 'u a', 'a  b', ''):
+        out.append('U\tu\t%s' % items)
+    for a, b in (('a+', 'a+'), ('a+', 'a-'), ('a+', 'b+')):
+        for pos in (('0', '0', '0', '0'), ('0', '5', '0', '5$'), ('5', '0', '3', '1'), ('0$', '0$', '1$', '1$'), ('10$', '10$', '0', '0')):
+            out.append('E\t*\t%s\t%s\t%s\t*' % (a, b, '\t'.join(pos)))
+            out.append('F\t%s\t%s\t%s\t*' % (a[:-1], b, '\t'.join(pos)))
+    for d in ('0', '-1', '*', ''):
+        out.append('G\t*\ta+\tb-\t%s\t*' % d)
+        out.append('C\ta\t+\tb\t-\t%s\t*' % d)
+    return out
 
 
 def doc_calls(rng, lines, version, vlevel, tmpdir):
@@ -234,7 +274,7 @@ def run(ctx, deep, model_ok):
     kinds = {}
     terms, metas = [], []
     # 1. exhaustive short lines
-    shorts = short_lines(rng, 2) + short_lines(rng, 3, sample=(6000 if deep else 600))
+    shorts = structured_lines(rng) + short_lines(rng, 2) + short_lines(rng, 3, sample=(6000 if deep else 600))
     for text in shorts:
         for version in (None, 'gfa1', 'gfa2'):
             vlevel = rng.choice([0, 1, 2, 3])
